@@ -323,6 +323,11 @@ def compare_rule(ctx, m, rep):
         rep.unk('K1', 'a_str_cmp_', 'anchor vanished')
         return
     loc = fn.loc(fn.entry.instrs[0])
+    strf = sorted(set(effects.callee_name(i) or '' for i in fn.instrs() if i.op == 'call') & {'strcmp', 'strncmp', 'strcoll', 'strcasecmp', 'strncasecmp', 'strxfrm'})
+    if strf:
+        rep.bad('K1', 'a_str_cmp_', 'the common prefix is compared with %s, which stops at the first NUL byte: byte strings with an embedded NUL compare equal although '
+                'they differ behind it (bytewise comparison needs memcmp)' % ', '.join(strf), loc=loc, key='a_str_cmp_: structure')
+        return
     try:
         dom = StrDom({}, {})
         dom.facts = []
